@@ -59,7 +59,7 @@ def cases(tier: str):
         (eft.ideal_2sum, 'sum', 2, ideal),
         (eft.fast_2sum, 'sum', 2, near),
         (eft.classic_2sum, 'sum', 2, near),
-        (eft.priest_2sum, 'sum', 2, near),
+        (eft.priest_2sum, 'sum', 2, near + anymode + [fp.MPFloatContext(4, rm) for rm in (RM.RTZ, RM.RTP, RM.RTN, RM.RAZ)]),        # Priest's algorithm asks for a floating-point context only: any rounding mode
         (eft.ideal_2mul, 'prod', 2, ideal),
         (eft.fast_2mul, 'prod', 2, anymode),
         (eft.classic_2mul, 'prod', 2, near),
@@ -79,6 +79,9 @@ def vectors_for(fn, law, arity, ctx, tier):
     p = precision_of(ctx) if not isinstance(ctx, fp.MPFixedContext) else 3
     p = min(p, 4)
     exps = (-1, 0, 1) if tier == 'quick' else (-2, -1, 0, 1, 2)
+    if law == 'sum':
+        # one operand below an ulp of the other (where a directed rounding pushes the sum a whole ulp away)
+        exps = (-5, -1, 0, 1) if tier == 'quick' else (-6, -4, -2, -1, 0, 1, 2)
     vals = fmt_values(p, exps)
     if law == 'vsplit':
         return [[x, s] for x in vals for s in range(1, max(2, p))]
@@ -86,7 +89,12 @@ def vectors_for(fn, law, arity, ctx, tier):
         return [[x, n] for x in vals for n in (-3, -1, 0, 2, 4)]
     if arity == 3:
         small = fmt_values(min(p, 2), (-1, 0, 1), specials=False) + [fp.Float(isinf=True)]
-        return [list(t) for t in itertools.product(small, repeat=3)]
+        triples = [list(t) for t in itertools.product(small, repeat=3)]
+        if p >= 3:
+            # full-width significands as well (a * b + c with every digit in use), positive and negative, one binade
+            wide = fmt_values(3, (0,), specials=False)
+            triples += [list(t) for t in itertools.product(wide, wide, fmt_values(2, (-1, 0), specials=False))]
+        return triples
     return [list(t) for t in itertools.product(vals, repeat=2)]
 
 
@@ -129,6 +137,8 @@ def record_wrappers(tier, work):
                 progs.append(('unsupported', f'{name}: {e}'))
                 continue
             vals = fmt_values(3, (-2, -1, 0, 1, 2)) + [fp.Float(c=45, exp=-3), fp.Float(s=True, c=77, exp=-5)]
+            # exponents the narrow contexts cannot hold (5 and -5 have three digits): the parts are exact whatever the context
+            vals += [fp.Float(c=3, exp=4), fp.Float(s=True, c=5, exp=3), fp.Float(c=5, exp=-7), fp.Float(c=7, exp=8)]
             vecs = [[x, n] for x in vals for n in (-3, -1, 0, 1)] if law == 'split' else [[x] for x in vals]
             ins = []
             for args in vecs:
@@ -168,6 +178,15 @@ def run(tier: str) -> int:
         p = by[pid]
         rep.mismatch({'clause': clause, 'function': p['main'], 'law': p['law']},
                      {'case': p['src'], 'input': p['inputs'][idx - 1], 'clause': clause, 'machine_error': merr})
+    # a decomposition whose stated preconditions hold (finite operands, a nearest floating-point context: arranged by `cases`) has to
+    # return; only the fast variants have a precondition on the operands themselves (ordered magnitudes) that their assert checks
+    for p in good:
+        if p['main'] in ('fast_2sum',) or p['law'] not in ('sum', 'prod', 'fma'):
+            continue
+        for idx, i_ in enumerate(p['inputs']):
+            if i_['out'].get('err') == 'AssertionError' and all(a.get('k') == 'fin' for a in i_['args']):
+                rep.mismatch({'clause': 'raises-although-the-stated-preconditions-hold', 'function': p['main'], 'law': p['law']},
+                             {'case': p['src'], 'input': i_, 'clause': 'raises-although-the-stated-preconditions-hold'})
     skipc = Counter(s[3] for s in skips)
     runs = sum(len(p['inputs']) for p in good)
     rep.cov.update({'programs': len(good), 'evaluations': runs, 'traces_validated_against_impl': runs - sum(skipc.values()),
